@@ -15,10 +15,19 @@ ALPHABET = ["C", "O", "H", "N", "*", ""]
 
 
 class NoCanon:
-    """Identity canonicaliser handed in through the public `canonicaliser=` parameter: canonical form and signature are
-    not inputs to rule application; this avoids SHA/f-string realisation of every template label."""
+    """Canonicaliser handed in through the public `canonicaliser=` parameter: the canonical graph is the graph itself and
+    the signature is a fresh token per graph object (no two distinct objects ever compare equal through it).  Canonical
+    form and signature are not inputs to rule application; this avoids SHA/f-string realisation of every template label.
+    Code that (rightly or wrongly) identifies rules or graphs *through signatures* simply never gets a hit under this stub;
+    the `history` harness of C05 runs with the real canonicaliser for that reason."""
 
     backend = "none"
+
+    _counter = itertools.count()
+
+    def __init__(self):
+        self._tok = {}
+        self._keep = []
 
     def make_canonical_graph(self, g):
         return g
@@ -26,7 +35,11 @@ class NoCanon:
     _make_canonical_graph = make_canonical_graph
 
     def canonical_signature(self, g):
-        return "0" * 32
+        k = id(g)
+        if k not in self._tok:
+            self._tok[k] = "nocanon-%d" % next(NoCanon._counter)
+            self._keep.append(g)
+        return self._tok[k]
 
     def canonicalise_graph(self, g):
         raise NotImplementedError
@@ -201,9 +214,9 @@ def its_subset(A, B):
     return AND([OR([its_iso(a, b) for b in B]) for a in A])
 
 
-def reactor(substrate, template, strategy="all", invert=False):
+def reactor(substrate, template, strategy="all", invert=False, real_canon=False):
     from synkit.Synthesis.Reactor.syn_reactor import SynReactor
 
-    nc = NoCanon()
+    nc = None if real_canon else NoCanon()
     return SynReactor(substrate=substrate, template=template, invert=invert, canonicaliser=nc, explicit_h=False,
                       implicit_temp=True, strategy=strategy)
